@@ -443,6 +443,143 @@ func c15DeadlineCase(c *Ctx) *Result {
 	return res
 }
 
+// c15WriteDeadlineCase: a write deadline bounds every later Write while the peer
+// does not take the data (it has stopped reading, or the network delivers nothing).
+func c15WriteDeadlineCase(c *Ctx) *Result {
+	r := rngFor(c.Seed, "C15w", c.Idx)
+	udp := c.Idx%2 == 1
+	stall := "peer-not-reading"
+	if udp && r.Intn(2) == 0 {
+		stall = "black-hole"
+	}
+	side := pick(r, "client", "server")
+	kind := pick(r, "future", "future", "future", "past", "now")
+	d := time.Duration(pick(r, 1, 2, 5)) * time.Second
+	chunk := pick(r, 10, 1000, 32768, 200000)
+	setter := pick(r, "SetDeadline", "SetWriteDeadline")
+	params := map[string]interface{}{"udp": udp, "stall": stall, "side": side, "deadline": kind, "deadline_s": d.Seconds(), "chunk": chunk, "setter": setter}
+	c.Out.Start("C15", fmt.Sprintf("C15-wdeadline/%d/%d", c.Seed, c.Idx), c.Seed, params)
+	res := &Result{Params: params, Obs: map[string]float64{}}
+	env, err := NewEnv(EnvCfg{UDP: udp})
+	if err != nil {
+		res.Verdict, res.Detail = Inconclusive, err.Error()
+		return res
+	}
+	defer env.Close()
+	if !udp {
+		env.OnPair = func(p *simnet.StreamPair) {
+			p.SetBuffer(simnet.C2S, 8192)
+			p.SetBuffer(simnet.S2C, 8192)
+		}
+	}
+	cm, _ := env.NewClient(0, "")
+	cc, err := dial(cm)
+	if err != nil {
+		res.Verdict, res.Detail = Inconclusive, err.Error()
+		return res
+	}
+	ch := env.Expect(sessionID(cc))
+	cc.Write([]byte("hello"))
+	var sc net.Conn
+	select {
+	case sc = <-ch:
+	case <-time.After(30 * time.Second):
+		res.Verdict, res.Detail = Inconclusive, "session not accepted"
+		return res
+	}
+	b := make([]byte, 16)
+	sc.Read(b)
+	sc.Write([]byte("world"))
+	cc.SetReadDeadline(time.Now().Add(20 * time.Second))
+	cc.Read(b)
+	cc.SetReadDeadline(time.Time{})
+	conn := cc
+	if side == "server" {
+		conn = sc
+	}
+	if stall == "black-hole" {
+		env.Net.SetPlan(func(d *simnet.Datagram) simnet.Decision { return simnet.Decision{Drop: true} })
+	}
+	var dl time.Time
+	switch kind {
+	case "future":
+		dl = time.Now().Add(d)
+	case "past":
+		dl = time.Now().Add(-time.Second)
+	case "now":
+		dl = time.Now()
+	}
+	if setter == "SetDeadline" {
+		conn.SetDeadline(dl)
+	} else {
+		conn.SetWriteDeadline(dl)
+	}
+	var sig, detail string
+	// the peer never reads: the writer must be stopped by the deadline, in this call or a later one
+	buf := make([]byte, chunk)
+	for k := 0; k < 2 && sig == ""; k++ {
+		type wres struct {
+			total, calls int
+			err          error
+			at           time.Time
+		}
+		done := make(chan wres, 1)
+		go func() {
+			var w wres
+			for w.total < 256<<20 {
+				n, err := conn.Write(buf)
+				w.total += n
+				w.calls++
+				if err != nil {
+					w.err = err
+					break
+				}
+			}
+			w.at = time.Now()
+			done <- w
+		}()
+		select {
+		case w := <-done:
+			res.Obs["deadline_writes"] += float64(w.calls)
+			res.Obs["deadline_write_loops"]++
+			late := w.at.Sub(dl)
+			if w.err == nil {
+				// 256 MiB cannot have been taken by a peer that does not read
+				sig, detail = "write-accepted-unbounded-data", fmt.Sprintf("%d bytes accepted by Write although the peer does not read", w.total)
+			} else if !stderror.IsTimeout(w.err) {
+				if !(stall == "black-hole" && late > 30*time.Second) {
+					sig, detail = "write-returned-other-error", fmt.Sprintf("loop %d: after %d calls / %d bytes: %v (%.1f s after the deadline)", k+1, w.calls, w.total, w.err, late.Seconds())
+				}
+			} else if isVirtual && late > time.Second+100*time.Millisecond {
+				sig, detail = "write-timeout-late", fmt.Sprintf("loop %d: the time-out came %.2f s after the deadline", k+1, late.Seconds())
+			}
+			if late.Seconds() > res.Obs["max_write_timeout_late_s"] {
+				res.Obs["max_write_timeout_late_s"] = late.Seconds()
+			}
+		case <-time.After(time.Until(dl.Add(30 * time.Second))):
+			res.Obs["deadline_write_loops"]++
+			k2 := "write-not-bounded-by-deadline|" + stall
+			if !udp {
+				k2 += "|tcp-backpressure"
+			}
+			if k > 0 {
+				k2 += "|second-or-later-call"
+			}
+			sig, detail = k2, fmt.Sprintf("%s: a Write of %d bytes is still blocked 30 s after the %s deadline set with %s (udp=%v, %s)", side, chunk, kind, setter, udp, stall)
+			if os.Getenv("VERIF_DUMP") != "" {
+				res.Witness = dumpMieru()
+			}
+		}
+	}
+	res.Shape = shapeHash(udp, stall, side, kind, setter, chunk)
+	if sig != "" {
+		res.Verdict, res.Sig, res.Detail = Violated, "C15|deadline|"+sig, detail
+		return res
+	}
+	res.Verdict = Held
+	return res
+}
+
 // c15RaceCase: concurrent reader + writer + closer on one connection (race build).
 func c15RaceCase(c *Ctx) *Result {
 	r := rngFor(c.Seed, "C15r", c.Idx)
@@ -528,6 +665,12 @@ func init() {
 			return 2000
 		}
 		return 64
+	}})
+	register(&Scenario{Name: "C15-wdeadline", Run: c15WriteDeadlineCase, Cases: func(t string) int {
+		if t == "thorough" {
+			return 1500
+		}
+		return 48
 	}})
 	register(&Scenario{Name: "C15-race", Run: c15RaceCase, NeedsReal: true, Cases: func(t string) int {
 		if t == "thorough" {
